@@ -212,6 +212,7 @@ type StreamOpts struct {
 	StartDB     int  // db selected at the start of the stream (-1: none, stream starts with SELECT)
 	FewBarriers bool // no MULTI/EXEC and no SELECT after the first one (nothing forces a flush)
 	MinCmds     int
+	BigValues   bool  // some values of 2-7 KiB
 	DBMenu      []int // if set, the databases the stream switches between (instead of 0..DBs-1)
 }
 
@@ -262,6 +263,18 @@ func GenStream(t *tape.Tape, o StreamOpts) (cmds []Cmd, stream []byte) {
 	}
 	val := func() []byte {
 		uniq++
+		if o.BigValues && t.Choose(5) == 4 {
+			// a value of several kilobytes: a handful of them makes a burst larger than the 8 KiB copy buffer
+			b := []byte(fmt.Sprintf("big%d:", uniq))
+			n := 2000 + t.Choose(5000)
+			for len(b) < n {
+				b = append(b, byte('a'+len(b)%26))
+			}
+			return b
+		}
+		if t.Choose(24) == 23 {
+			return []byte{} // the empty string ($0)
+		}
 		if t.Choose(6) == 5 {
 			return append([]byte(fmt.Sprintf("v%d:", uniq)), t.Bytes(t.Choose(20), []byte("ab\r\n \x00\xff"))...)
 		}
